@@ -7,6 +7,9 @@ package conn
 // the production goroutines call, so that the harness can step the packetisation core one action at a time.
 
 import (
+	"io"
+
+	"github.com/golang/snappy"
 	cmn "github.com/lianxiangcloud/linkchain/libs/common"
 	"github.com/lianxiangcloud/linkchain/libs/crypto"
 	"github.com/lianxiangcloud/linkchain/libs/ser"
@@ -22,6 +25,24 @@ func VerifC18FrameConsts() (int, int, int) { return headerSize, dataMaxSize, fra
 // for the harness's scripted (attacker) peer.
 func VerifC18EncodeAuthSig(key crypto.PubKey, sig crypto.Signature) ([]byte, error) {
 	return ser.EncodeToBytesWithType(authSigMessage{key, sig})
+}
+
+// VerifC18SnappyEncode / VerifC18SnappyDecode give the harness's scripted peer the block codec the frames
+// use (the harness module must not add module requirements of its own).
+func VerifC18SnappyEncode(b []byte) []byte { return snappy.Encode(nil, b) }
+
+func VerifC18SnappyDecode(b []byte) ([]byte, error) { return snappy.Decode(nil, b) }
+
+// VerifC18CloneFresh returns a new SecretConnection over conn whose state is a deep copy of sc's
+// post-handshake state (sc must be freshly handshaken: nothing read or written yet). The stream part of
+// the check needs a fresh instance per execution (10^5..10^6 executions); the state cloned here was
+// produced by the real MakeSecretConnection, run once per process on both sides.
+func VerifC18CloneFresh(sc *SecretConnection, conn io.ReadWriteCloser) *SecretConnection {
+	if len(sc.recvBuffer) != 0 {
+		panic("VerifC18CloneFresh: template connection was used")
+	}
+	rn, sn, ss := *sc.recvNonce, *sc.sendNonce, *sc.shrSecret
+	return &SecretConnection{conn: conn, recvNonce: &rn, sendNonce: &sn, shrSecret: &ss, remPubKey: sc.remPubKey}
 }
 
 // VerifC18PrepareSender makes an UNSTARTED MConnection steppable: sendPacketMsg calls c.flushTimer.Set(),
